@@ -250,7 +250,7 @@ PROPS = {
     "C16": {
         "level": "exploration", "eval_keys": ["perturbed_runs", "reproducibility_checks", "cross_stream_comparisons"],
         "rule": "evaluations = perturbed re-executions (one per draw of the source) + reproducibility checks (same stream, scripted replay, counter and periodic sources) + cross-stream comparisons of every random-derived observable; distinct = (entry point, n, t)",
-        "minimum": _min_counts(taint_maps=(200, 1500), perturbed_runs=(1500, 12000)),
+        "minimum": _min_counts(taint_maps=(200, 1000), perturbed_runs=(1500, 12000)),
         "assumptions": COMMON_ASSUME + ["a dead or shared draw counts only if it shows under three different base streams (rejection sampling may legitimately discard a draw)", "batch blinders are internal: decided behaviourally by C19, cross-checked here by the number of draws"],
     },
     "C17": {
@@ -264,7 +264,7 @@ PROPS = {
         "level": "exploration", "eval_keys": ["sessions_judged"], "suites": TR_ONLY, "weights": {"secp256k1-tr": 12},
         "rule": "one evaluation = one Taproot signing session (dealer or DKG keys; root absent/empty/32/5/100 bytes or untweaked) judged by the in-harness BIP-340 check, libsecp256k1 and the Python BIP-340/341 code; seeds are drawn until each of the 8 (internal key, output key, group commitment) parity cells per (key source, root) was seen >= 2x (quick) / 16x (thorough); distinct = filled parity cells",
         "python": lambda f, t, s, o: ck.check_taproot(f, "C18"),
-        "minimum": _all(_c18_min, _min_counts(sessions_judged=(300, 2000), python_taproot_sessions=(200, 400))),
+        "minimum": _all(_c18_min, _min_counts(sessions_judged=(300, 1500), python_taproot_sessions=(200, 400))),
         "evidence_extra": lambda m, py: {"parity_table": {k[5:]: v for k, v in m["counts"].items() if k.startswith("cell/")}},
         "assumptions": COMMON_ASSUME,
     },
